@@ -41,6 +41,15 @@ CLAIMS = {
  "C12": dict(cat="other", design="DESIGN.md §3 C12",
    text="Taint-to-sink audit of Package::extract over MIR: every filesystem-modifying call on its cone is enumerated; the provenance term of its path argument must be the target itself or the Ok payload of the containment function applied to (target, package path); the containment function's Component arm table (.. and prefix -> error, only Normal names pushed), its who-may-write set and its symlink refusal (conditional on nothing but is-symlink and not-last) are checked; follow-capable calls on the final path must be dominated by symlink removal; panic-site audit of the cone; per-file-type arm table against the oracle. Universal over hostile packages because it covers every sink; filesystem races are out of scope.",
    technique="taint-to-sink provenance audit + sanitiser arm table + dominance + panic-site audit"),
+ "C11": dict(cat="other", design="DESIGN.md §3 C11",
+   text="Determinism-source audit over the MIR call-graph cone of PackageBuilder::build/build_and_sign: no iteration or Debug-formatting of a HashMap/HashSet (type-resolved from callee receiver types), a closed table of ambient inputs (only Timestamp::now at the two clamped sites), and for build time, per-file mtime and signature time the min(source_date, value) pattern with branch polarity plus consumer provenance being the clamped local. Universal over all runs/processes because it removes every seed- or clock-dependent source from the path; determinism inside compressors and pgp is trusted.",
+   technique="type-resolved call-site audit on the build cone + clamp-pattern dataflow with polarity"),
+ "C15": dict(cat="other", design="DESIGN.md §3 C15",
+   text="Formatter/parser table agreement: CompressionType's Display (variant, literal) rows are looked up in FromStr's (literal, variant) rows; separators of the Evr/Nevra format templates (from the expanded AST) are compared with the characters the parsers split on; boundaries whose left part may contain the separator must be searched from the right (the left split of the NEVRA name is a recorded known finding); the normalised form's epoch operand is \"0\" exactly on the is_empty branch; panic-site audit of the parsing functions. Structural necessary conditions of the round trip, not the value-level equality.",
+   technique="arm-table extraction + AST format-template join + provenance of split receivers + panic-site audit"),
+ "C19": dict(cat="other", design="DESIGN.md §3 C19",
+   text="Loop-invariance rule (every rejecting branch in the per-clause loop must be data-dependent on the clause), validation-dominates-construction with verbatim storage for every FileCaps construction, operator/flag character switch tables and the capability-name constant (decoded from the compiled constant) against the oracle, error mapping, and a panic-site audit of the validator. Decides the structural clauses for all strings; exact language equality with the grammar is not decided.",
+   technique="loop-invariant-guard dataflow + dominance + switch-table / constant-table extraction"),
 }
 
 NA = {
